@@ -1249,7 +1249,6 @@ func ruleC10TypeWalks(c *Ctx) {
 	c.R.Floor(rule, "element-type walks in the inference closure", n, 1)
 }
 
-
 func init() {
 	p := Properties["C10"]
 	p.Rules = append(p.Rules, Rule{"C10/prefix-slices-guarded", ruleC10PrefixSlices})
@@ -1322,4 +1321,3 @@ func ruleC10PrefixSlices(c *Ctx) {
 		c.R.OK(rule, "none", "", "no slice expression in the package is bounded by the length of another slice")
 	}
 }
-
